@@ -103,6 +103,37 @@ pub fn raw_set(bus: &mut Bus, addr: u32, v: u8) -> bool {
     }
 }
 
+/// panics of the emulator's bus write path under the harness's own set-up stores (see `Emu::set_byte`)
+pub static SETUP_PANICS: std::sync::atomic::AtomicU64 = std::sync::atomic::AtomicU64::new(0);
+pub static LAST_SETUP_PANIC: std::sync::Mutex<Option<(u32, u8, String)>> = std::sync::Mutex::new(None);
+/// the set-up panics as a failure of the running check (used by C09 and C15)
+pub fn setup_panic_failure() -> Option<crate::engine::stats::Failure> {
+    if SETUP_PANICS.load(std::sync::atomic::Ordering::SeqCst) == 0 {
+        return None;
+    }
+    let (a, v, p) = LAST_SETUP_PANIC.lock().ok()?.clone()?;
+    Some(crate::engine::stats::Failure {
+        signature: "panic in the bus write path".into(),
+        detail: format!("a byte store of {:02x} to {:06x} through Bus::write panicked: {} ({} such panics in this run)", v, a, p, SETUP_PANICS.load(std::sync::atomic::Ordering::SeqCst)),
+        case: serde_json::json!({"kind": "setup-write", "addr": a, "value": v}),
+    })
+}
+/// replay of a `setup-write` case: the store on a fresh Cpu (and on one whose byte already differs)
+pub fn replay_setup_write(case: &serde_json::Value) -> Option<Result<(), String>> {
+    if case.get("kind").and_then(|k| k.as_str()) != Some("setup-write") {
+        return None;
+    }
+    let a = case.get("addr")?.as_u64()? as u32;
+    let v = case.get("value")?.as_u64()? as u8;
+    let r = guarded(|| {
+        let mut cpu = crate::cpu::Cpu::new();
+        let _ = cpu.bus.write(a, v);
+        let _ = cpu.bus.write(a, !v);
+        let _ = cpu.bus.write(a, v);
+    });
+    Some(r.map_err(|p| format!("a byte store of {:02x} to {:06x} through Bus::write panicked: {}", v, a, p)))
+}
+
 pub static PANICS: std::sync::atomic::AtomicU64 = std::sync::atomic::AtomicU64::new(0);
 pub static REBUILDS: std::sync::atomic::AtomicU64 = std::sync::atomic::AtomicU64::new(0);
 
@@ -400,8 +431,25 @@ impl Emu {
         let timer = (0xffff80..=0xffff99).contains(&a);
         if !is_peripheral_reg(a) || timer {
             if raw_get(&self.cpu.bus, a) != Some(v) {
-                if self.cpu.bus.write(a, v).is_err() {
-                    raw_set(&mut self.cpu.bus, a, v);
+                let bus = &mut self.cpu.bus;
+                match guarded(|| bus.write(a, v)) {
+                    Ok(Ok(())) => {}
+                    Ok(Err(_)) => {
+                        raw_set(&mut self.cpu.bus, a, v);
+                    }
+                    Err(p) => {
+                        // a plain store of the pre-image panicked inside the emulator: counted (C15 and C09 report it:
+                        // "no memory content can make the emulator panic", "a write to an accessible address
+                        // succeeds"); for every other check the case goes on with the byte poked
+                        SETUP_PANICS.fetch_add(1, std::sync::atomic::Ordering::SeqCst);
+                        if let Ok(mut g) = LAST_SETUP_PANIC.lock() {
+                            if g.is_none() {
+                                *g = Some((a, v, p));
+                            }
+                        }
+                        raw_set(&mut self.cpu.bus, a, v);
+                        self.dirty_hidden = true;
+                    }
                 }
                 if timer {
                     self.dirty_hidden = true;
